@@ -38,6 +38,36 @@ class UnitError(Exception):
 _bt = re.compile(r"`([^`]*)`")
 
 
+def alpha_map(old, new):
+    """if `new` is `old` with identifiers consistently renamed (token streams otherwise identical), return {old_ident: new_ident} for
+    the identifiers that changed; {} if identical; None if the texts differ in any other way"""
+    a = sig(lex(old))
+    b = sig(lex(new))
+    if len(a) != len(b):
+        return None
+    fwd = {}
+    bwd = {}
+    for x, y in zip(a, b):
+        if x.kind != y.kind:
+            return None
+        if x.kind != "ident":
+            if x.text != y.text:
+                return None
+            continue
+        if fwd.get(x.text, y.text) != y.text or bwd.get(y.text, x.text) != x.text:
+            return None
+        fwd[x.text] = y.text
+        bwd[y.text] = x.text
+    return {k: v for k, v in fwd.items() if k != v}
+
+
+def rename_idents(text, ren):
+    if not ren or text is None:
+        return text
+    toks = lex(text)
+    return "".join(ren.get(t.text, t.text) if t.kind == "ident" else t.text for t in toks)
+
+
 class ItemSpec:
     def __init__(self, line_no):
         self.line_no = line_no
@@ -219,21 +249,69 @@ class Unit:
         return ms[0].group(1), ms[1].group(1), why
 
     # ------------------------------------------------------------------------------------------------------------
-    def generate(self, repo, probe=False):
-        """returns (text, info) ; info lists functions under contract, rules fired, splice ids"""
+    def item_key(self, spec):
+        return "%s|%s|%s|%s" % (spec.path, spec.container or "", "fn" if spec.kind == "region" else spec.kind, spec.name)
+
+    def source_items(self, repo):
+        """{item key: source text} of every extracted item (the baseline that hints are written against)"""
+        out = {}
+        for kind, spec in self.parts:
+            if kind != "item":
+                continue
+            it = find_item(repo, spec.path, "fn" if spec.kind == "region" else spec.kind, spec.name, spec.container)
+            out[self.item_key(spec)] = it.text
+        return out
+
+    def _load_baseline(self):
+        if getattr(self, "_baseline", None) is None:
+            import json
+            p = os.path.join(os.path.dirname(os.path.dirname(os.path.abspath(self.path))), "baseline", self.name + ".json")
+            try:
+                with open(p) as f:
+                    self._baseline = json.load(f)
+            except (OSError, ValueError):
+                self._baseline = {}
+        return self._baseline
+
+    def generate(self, repo, probe=False, drop=()):
+        """returns (text, info) ; info lists functions under contract, rules fired, splice ids.
+        drop: splice ids (proof hints) to leave out."""
+        import copy
         out = []
-        info = {"items": [], "splices": []}
+        info = {"items": [], "splices": [], "alpha_renamed": {}, "dropped_hints": sorted(drop)}
+        self._drop = set(drop)
+        base = self._load_baseline()
         for kind, part in self.parts:
             if kind == "raw":
                 out.append(part)
                 continue
             spec = part
             log = {}
+            it = find_item(repo, spec.path, "fn" if spec.kind == "region" else spec.kind, spec.name, spec.container)
+            # proof text is written against the baseline source; if the current source is the baseline with locals/parameters
+            # consistently renamed, the unit's text for this item is alpha-renamed to follow it
+            btxt = base.get(self.item_key(spec))
+            if btxt is not None and btxt != it.text:
+                ren = alpha_map(btxt, it.text)
+                if ren:
+                    spec = copy.deepcopy(spec)
+                    spec.ret = spec.ret
+                    spec.substs = [(rename_idents(a, ren), rename_idents(b, ren), w, m) for a, b, w, m in spec.substs]
+                    spec.spans = [(rename_idents(a, ren), rename_idents(b, ren), rename_idents(r_, ren), w) for a, b, r_, w in spec.spans]
+                    spec.splices = [[sp[0], rename_idents(sp[1], ren) if isinstance(sp[1], str) else sp[1], sp[2], [rename_idents(l, ren) for l in sp[3]]] for sp in spec.splices]
+                    if spec.region:
+                        rg = dict(spec.region)
+                        for k_ in ("from", "to"):
+                            if k_ in rg:
+                                rg[k_] = (rg[k_][0], rename_idents(rg[k_][1], ren), rg[k_][2])
+                        for k_ in ("sig", "epilogue"):
+                            if k_ in rg:
+                                rg[k_] = rename_idents(rg[k_], ren)
+                        spec.region = rg
+                    info["alpha_renamed"][self.item_key(spec)] = ren
             if spec.kind == "region":
-                it = find_item(repo, spec.path, "fn", spec.name, spec.container)
                 text = self._lift_region(it.text, spec, log)
             else:
-                it = find_item(repo, spec.path, spec.kind, spec.name, spec.container)
                 text = it.text
             text = rw.r10_decoration(text, log)
             text = rw.r1_async(text, log)
@@ -420,6 +498,8 @@ class Unit:
                 h, hend = hits[nth - 1]
                 sid = sid_base + "/%s:%s#%d" % (kind, arg, nth)
                 pos = st[h].start if kind == "before" else st[hend].end
+            if sid in getattr(self, "_drop", ()):
+                continue
             info["splices"].append(sid)
             inserts.append((pos, order, "/*+vx:%s*/\n%s\n/*-vx*/ " % (sid, body)))
         if probe:
